@@ -49,7 +49,11 @@ HOOK_FLOORS = {"quick": {"parser_init": 10000, "nested_parser_init": 1000},
                "thorough": {"parser_init": 500000,
                             "nested_parser_init": 100000}}
 
-SCHEMA = "<schema><multikey name='k' attribute='k'/></schema>"
+SCHEMA = ("<schema><multikey name='k' attribute='k'/><key name='o'/>"
+          "</schema>")
+# a load with a command-line override that has nothing to do with the
+# definitions: the namespace rules are the same
+OVERRIDE = "with-override"
 DEF_NAMES = ["a", "A", "b"]
 USE_NAMES = ["a", "A", "b", "c", "{A}", "{b}"]
 VALUES = ["x", "y", "", "$b", "$a", "$$b", "${B}x", "  x "]
@@ -189,7 +193,9 @@ def observe(schema, path, hook, loader=None):
     import ZConfig
     hook.begin()
     try:
-        if loader is not None:
+        if loader is OVERRIDE:
+            cfg, _ = ZConfig.loadConfig(schema, path, overrides=["o=1"])
+        elif loader is not None:
             cfg, _ = loader.loadURL(path)
         else:
             cfg, _ = ZConfig.loadConfig(schema, path)
@@ -247,7 +253,9 @@ def signature(files, exp_out, defines):
 
 def run_case(ctx, schema, hook, steps_files, family, dirpath, loader=None):
     res = ctx.res
-    via = "loader-object" if loader is not None else "loadConfig"
+    via = OVERRIDE if loader is OVERRIDE else \
+        "loader-object" if loader is not None else "loadConfig"
+    res.count("via_" + via)
     texts = render(steps_files)
     for name, text in texts.items():
         with open(os.path.join(dirpath, name), "w") as f:
@@ -353,12 +361,17 @@ def run_shard(ctx):
                     if ai % 3 == 0:
                         run_case(ctx, schema, hook, files, "enum-loader",
                                  dirpath, shared)
+                    elif ai % 3 == 1:
+                        run_case(ctx, schema, hook, files, "enum-override",
+                                 dirpath, OVERRIDE)
         rng = ctx.rng("random")
         for i in range(RANDOM[ctx.tier] // ctx.nshards):
             files = random_case(rng)
             run_case(ctx, schema, hook, files, "random", dirpath)
             run_case(ctx, schema, hook, files, "random-loader", dirpath,
                      shared)
+            run_case(ctx, schema, hook, files, "random-override", dirpath,
+                     OVERRIDE)
     finally:
         hook.remove()
     ctx.res.info["bounds"] = {"steps": len(STEPS),
@@ -387,8 +400,14 @@ def replay(ctx, case):
             with open(os.path.join(d, name), "w") as f:
                 f.write(text)
         exp_out, exp_vals, defines = expected(texts)
+        loader = None
+        if case.get("via") == OVERRIDE:
+            loader = OVERRIDE
+        elif case.get("via") == "loader-object":
+            from ZConfig.loader import ConfigLoader
+            loader = ConfigLoader(schema)
         obs_out, obs_vals = observe(schema, os.path.join(d, "main.conf"),
-                                    hook)
+                                    hook, loader)
         if exp_out[0] != "unjudged" and not agrees(exp_out, exp_vals,
                                                     obs_out, obs_vals):
             ctx.res.violate("namespace-disagrees", case,
